@@ -121,6 +121,10 @@ pub struct Kernel {
     /// things the allocator should never do (foreign syscalls, unmapping what it does not own, odd arguments)
     pub anomalies: Vec<String>,
     pub arena_exhausted: bool,
+    /// how each successful mmap (by mmap index) related to the live mappings
+    pub join_events: Vec<Ev>,
+    /// written by the lasso rounds (observation, see lasso.rs)
+    pub reuse_misses: usize,
     retained: usize,
     water: (usize, usize),
 }
@@ -162,6 +166,8 @@ impl Kernel {
             events: Vec::with_capacity(16),
             anomalies: Vec::new(),
             arena_exhausted: false,
+            join_events: Vec::new(),
+            reuse_misses: 0,
             retained: 0,
             water: (usize::MAX, 0),
         }
@@ -187,6 +193,8 @@ impl Kernel {
         self.events.clear();
         self.anomalies.clear();
         self.arena_exhausted = false;
+        self.join_events.clear();
+        self.reuse_misses = 0;
     }
 
     /// Make a currently RW range inaccessible.  Whatever is mapped there later must read as zeros:
@@ -404,6 +412,7 @@ impl Kernel {
         }
         let ev = self.classify_map(addr, len);
         self.events.push(ev);
+        self.join_events.push(ev);
         self.insert_region(addr, len);
         addr as i64
     }
